@@ -1,7 +1,65 @@
-import Hs.Model.Vx
+import Hs.Drv.FilterVx
+import Hs.Model.FilterLoops
 namespace Hs.Drv.C09
+open Hs Hs.Vx Hs.FLoops
 
-/-- requests `C09 <cmd> ...` (tokens after the property id) -/
-def handle (_ts : List String) : String := "bad-request"
+def okBool (r : Res Bool) : String :=
+  Hs.Drv.FilterVx.resTag r (fun b => if b then "1" else "0")
+
+/-- `weq H(target) V(start) k (ID|- EMPTY V)*k` → `ok 0|1`; fuel = (number of records) + 1 -/
+def weqReq (ts : List String) : String :=
+  match (do
+    let (target, ts) ← pH ts
+    let (start, ts) ← pVal ts
+    let (k, ts) ← pNat ts
+    let (recs, _) ← pRep (fun ts => do
+      let (id, ts) ← pHO ts
+      let (e, ts) ← pNat ts
+      let (v, ts) ← pVal ts
+      pure (({ id := id, empty := e != 0, target := v } : RecView), ts)) k ts
+    pure (okBool (weqEval recs target start ((viewIds recs).length + 1)))) with
+  | some s => s
+  | none => "bad-request"
+
+def pDefVal : P DefVal := fun ts => do
+  let (s, ts) ← tok ts
+  let (f, ts) ← pNat ts
+  if s = "-" then pure (.absent, ts)
+  else if s = "!" then pure (.other, ts)
+  else pure (.sym (f != 0), ts)
+
+/-- `rel ISREL TRANSITIVE HASRECIP HASTERM TARGET|- SUBJECT k (ID|- n (REF|- RELSYM|-|! FITS RECIPSYM|-|! RFITS)*n)*k` -/
+def relReq (ts : List String) : String :=
+  match (do
+    let (isRel, ts) ← pNat ts
+    let (tr, ts) ← pNat ts
+    let (hr, ts) ← pNat ts
+    let (_ht, ts) ← pNat ts
+    let (target, ts) ← pHO ts
+    let (si, ts) ← pNat ts
+    let (k, ts) ← pNat ts
+    let (recs, _) ← pRep (fun ts => do
+      let (id, ts) ← pHO ts
+      let (n, ts) ← pNat ts
+      let (es, ts) ← pRep (fun ts => do
+        let (r, ts) ← pHO ts
+        let (rel, ts) ← pDefVal ts
+        let (rc, ts) ← pDefVal ts
+        pure (({ ref := r, rel := rel, recip := rc } : Entry), ts)) n ts
+      pure (({ id := id, entries := es } : Rec), ts)) k ts
+    let subject ← recs[si]?
+    pure (okBool (hasRelationship recs (isRel != 0) (tr != 0) (hr != 0) target subject ((recIds recs).length + 1)))) with
+  | some s => s
+  | none => "bad-request"
+
+/-- requests `C09 <cmd> ...`: `parse H(text)` (shared with C08), `weq …`, `rel …` -/
+def handle (ts : List String) : String :=
+  match Hs.Drv.FilterVx.handle ts with
+  | some r => r
+  | none =>
+    match ts with
+    | "weq" :: rest => weqReq rest
+    | "rel" :: rest => relReq rest
+    | _ => "bad-request"
 
 end Hs.Drv.C09
